@@ -357,3 +357,67 @@ Example sparse_example :
   sparse_frames_ops [[[0; 0; 0; 0; 0; 0; 0; 0; 7; 0; 0; 0; 0; 0; 0; 0; 0; 0; 0]]] =
   [SSeek 8; SWrite [7; 0; 0; 0; 0; 0; 0; 0]; SSeek 2; SWrite [0]].
 Proof. vm_compute. reflexivity. Qed.
+
+(* ------------------------------------------------------------------ storedSkips never wraps; runs longer than 2^32 *)
+
+(* the values storedSkips takes between the write jobs of a frame *)
+Fixpoint skips_trace (chunks : list (list N)) (skips : N) : list N :=
+  match chunks with
+  | [] => []
+  | c :: tl => let sk := snd (fwrite_sparse c skips) in sk :: skips_trace tl sk
+  end.
+
+(* with write jobs of at most 1 GB, the `unsigned storedSkips` stays below 3 GB < 2^32: the arithmetic mod 2^32 of the
+   model (and of the C code) never wraps, however long the zero run is *)
+Theorem sparse_skips_bounded_thm : forall chunks sk f c,
+  Inv f sk c -> sk <= SK_MAX -> (forall ch, In ch chunks -> len ch <= GB1) ->
+  Forall (fun x => x <= SK_MAX /\ x < M32) (skips_trace chunks sk).
+Proof.
+  induction chunks as [|ch tl IH]; intros sk f c HI Hsk Hall; cbn [skips_trace]; [constructor|].
+  destruct (fwrite_sparse_spec ch f sk c HI Hsk (Hall ch (or_introl eq_refl))) as [J1 J2].
+  constructor.
+  - split; [exact J2|]. unfold SK_MAX, GB1, M32 in *. lia.
+  - apply (IH _ _ _ J1 J2). intros x Hx. apply Hall. right. exact Hx.
+Qed.
+
+Lemma In_repeat_eq : forall (A : Type) (x y : A) n, In y (repeat x n) -> y = x.
+Proof. intros A x y n H. apply repeat_spec in H. exact H. Qed.
+
+Lemma concat_repeat_zeros : forall a n, concat (repeat (zeros a) n) = zeros (N.of_nat n * a).
+Proof.
+  intros a. induction n as [|n IH]; [reflexivity|].
+  cbn [repeat concat]. rewrite IH. rewrite <- zeros_add. f_equal. lia.
+Qed.
+
+(* a zero run of n GB (n arbitrary: beyond 4 GiB, i.e. beyond the range of storedSkips), written in 1 GB jobs,
+   followed by a last job: the file is n GB of zeros followed by that job's bytes *)
+Theorem sparse_equiv_over_4GiB_thm : forall (n : nat) tail,
+  len tail <= GB1 ->
+  s_data (s_run (sparse_frames_ops [repeat (zeros GB1) n ++ [tail]]) empty_file) = zeros (N.of_nat n * GB1) ++ tail.
+Proof.
+  intros n tail Ht.
+  destruct (sparse_equiv_thm [repeat (zeros GB1) n ++ [tail]]) as [E _].
+  - intros fr ch [Hfr|[]] Hch. subst fr. apply in_app_or in Hch. destruct Hch as [Hch|[Hch|[]]].
+    + apply In_repeat_eq in Hch. subst ch. rewrite len_zeros. lia.
+    + subst ch. exact Ht.
+  - rewrite E. cbn [map concat]. rewrite app_nil_r. rewrite concat_app. cbn [concat]. rewrite app_nil_r.
+    rewrite concat_repeat_zeros. reflexivity.
+Qed.
+
+(* ------------------------------------------------------------------ the sparse setting does not change the bytes *)
+
+Theorem sparse_setting_irrelevant_thm : forall v frames,
+  (forall fr ch, In fr frames -> In ch fr -> len ch <= GB1) ->
+  s_data (s_run (dst_writer_ops v frames) empty_file) = concat (map (@concat N) frames).
+Proof.
+  intros v frames H. destruct (sparse_equiv_thm frames H) as [E1 E2]. unfold dst_writer_ops.
+  destruct (v =? 0); [rewrite <- E2|]; exact E1.
+Qed.
+
+(* --no-sparse and compression never seek; --sparse always uses the sparse writer, also on stdout; the automatic
+   setting is used for a file only if the destination pre-existed as a regular file, and is lost once it was not *)
+Theorem sparse_setting_thm :
+  (forall a, sparse_init true a = 0) /\
+  (forall so r, sparse_open 0 so r = 0) /\ (forall so r, sparse_open 2 so r = 2) /\
+  (forall r, sparse_open 1 true r = 0) /\ sparse_open 1 false true = 1 /\ sparse_open 1 false false = 0.
+Proof. repeat split; intros; reflexivity. Qed.
